@@ -82,7 +82,9 @@ def streamClosePrims (s : St) (h : Nat) : List Prim :=
 /-- uv_accept (stream.c:536-598) -/
 def acceptInto (s : St) (srv cli : Nat) (ckind : HKind) : St × Bool :=
   let ok := !s.has (.handle cli .io) && (ckind = .tcp || ckind = .pipe || ckind = .udp || ckind = .tty)
-  let s := if ok then (s.run [.transfer (.handle srv .acc) (.handle cli .io)]).setH cli (fun h => { h with readable := true, bound := true })
+  -- a connection taken from a listen backlog is bound; a descriptor received over IPC is whatever the sender made
+  let fromIpc := ((s.h? srv).map (·.ipc)).getD false
+  let s := if ok then (s.run [.transfer (.handle srv .acc) (.handle cli .io)]).setH cli (fun h => { h with readable := true, bound := !fromIpc, connected := !fromIpc })
            else s.run [.closeOwner (.handle srv .acc) false]
   let s := if nQueued s srv > 0 then s.run [.transfer (.handle srv .q) (.handle srv .acc)] else s
   (s, ok)
